@@ -85,3 +85,33 @@ Proof.
     destruct (dec_frames fuel si (cur + h_bs (f_hdr f)) (bs ++ firstn m gb) (interleave_frame (sem_frame f) :: acc)) as [out e].
     destruct IH as [-> He]. split; [|exact He]. cbn [rev map]. rewrite <- app_assoc. reflexivity.
 Qed.
+
+(* the finished stream: all frames, then a clean end (total unknown, or known and exactly reached) *)
+Theorem complete_stream si : forall fs allb fuel cur acc,
+  Forall (frame_ok si) fs -> frames_bytes fs = Some allb ->
+  (si_total si = 0 \/ cur + total_samples fs = si_total si) ->
+  (length allb < fuel)%nat ->
+  dec_frames fuel si cur allb acc =
+    (rev acc ++ map (fun f => interleave_frame (sem_frame f)) fs, EndEof).
+Proof.
+  induction fs as [|f fs IH]; intros allb fuel cur acc Hfs Hb Ht Hfuel.
+  - cbn in Hb. injection Hb as <-. destruct fuel as [|fuel]; [lia|]. cbn [dec_frames map]. rewrite app_nil_r.
+    unfold read_frame. destruct (N.eqb_spec (si_total si) 0) as [E0|N0]; [reflexivity|].
+    cbn [total_samples fold_right] in Ht. destruct Ht as [Ht|Ht]; [congruence|].
+    destruct (N.ltb_spec (si_total si) cur); [lia|]. cbv zeta.
+    destruct (Z.eqb_spec (Z.of_N (si_total si) - Z.of_N cur) 0); [reflexivity|lia].
+  - cbn [frames_bytes] in Hb.
+    destruct (write_frame f) as [b|] eqn:Ew; [|discriminate].
+    destruct (frames_bytes fs) as [bs|] eqn:Ebs; [|discriminate]. injection Hb as <-.
+    inversion Hfs as [|? ? Hf Hrest]; subst.
+    destruct fuel as [|fuel]; [lia|]. cbn [dec_frames].
+    cbn [total_samples fold_right] in Ht. fold (total_samples fs) in Ht.
+    rewrite (read_frame_valid si cur f b bs Hf Ew) by lia.
+    rewrite app_length in Hfuel.
+    assert (Lb : (2 <= length b)%nat).
+    { unfold write_frame in Ew. destruct (write_header_fields (f_hdr f)); [|discriminate]. cbv zeta in Ew. injection Ew as Ew.
+      apply (f_equal (@length N)) in Ew. rewrite !app_length in Ew. cbn in Ew. lia. }
+    assert (Ht2 : si_total si = 0 \/ cur + h_bs (f_hdr f) + total_samples fs = si_total si) by lia.
+    rewrite (IH bs fuel (cur + h_bs (f_hdr f)) (interleave_frame (sem_frame f) :: acc) Hrest eq_refl Ht2) by lia.
+    cbn [rev map]. rewrite <- app_assoc. reflexivity.
+Qed.
